@@ -466,6 +466,11 @@ func (k Keeper) ParsePricing(ctx sdk.Context, pricing string) (p types.Pricing, 
 		return p, sdkerrors.Wrapf(types.ErrInvalidPricing, "invalid price: %s", err.Error())
 	}
 
+	// a decimal price is not bounded by the parser: refuse what cannot become a price amount
+	if token.Amount.BigInt().BitLen() > types.MaxPriceBitLen+sdk.DecimalPrecisionBits {
+		return p, sdkerrors.Wrap(types.ErrInvalidPricing, "invalid price: too large")
+	}
+
 	priceCoin, err := ft.ToMinCoin(token)
 	if err != nil {
 		return p, sdkerrors.Wrapf(types.ErrInvalidPricing, "invalid price: %s", err.Error())
